@@ -124,6 +124,19 @@ prop("C03", kind="sim", quick_runs=3000, thorough_s=900,
                   "the fault injected here is delivery order: which order Diff's map iterations emit deletes and updates in"])
 
 
+prop("C04", kind="sim", quick_runs=3000, thorough_s=600,
+     rule="one run = one seeded tree (unkeyed lists, binary values, unions, ordered and keyed lists populated) put through DeepCopy, or two non-conflicting "
+          "projections of it put through MergeStructs, followed by a history of 2-9 (thorough: up to 25) in-place mutations of one side at locations "
+          "enumerated by reflection (pointer targets, map entries, slice elements, bytes of binary values, elements of unkeyed lists, wrapper-union "
+          "structs, ordered-map internals); after each mutation the deep fingerprint of every other side must be unchanged; "
+          "distinct = distinct (package, scenario, mutation trace) hashes; non-trivial = at least one mutation changed the mutated side",
+     fault_kinds=[],
+     probes=["state_changes", "mutation:pointer-target", "mutation:binary-bytes", "mutation:leaflist-element", "mutation:map-entry-delete",
+             "mutation:unkeyed-slice-element-nil", "mutation:ordered-keys-swap", "mutation:ordered-valuemap-delete", "mutation:struct-field-clear",
+             "mutation:wrapper-union-field", "mutation:union-binary-bytes"],
+     assumptions=["which pairs MergeStructs accepts is C05's subject; runs in which it refuses the pair are counted and skipped"])
+
+
 def run_workers(binp, pid, tier, base_seed, total_runs, deadline_s, extra_args=None, env=None, workers=None):
     """Runs hsim over [base_seed, base_seed+total_runs) split across workers. Returns parsed lines."""
     workers = workers or min(NCPU, 16)
